@@ -398,28 +398,81 @@ theorem rel_par (total : Nat) (w : Watch) (s : St) (k : Nat) (a : Adv) (h : Rel 
           refine ⟨(drainWatch w k).1, ?_, hrel⟩
           simp [watchStep, hkn', hparks, hc2, hrel.rest, hrel.fin, hrel.pos]
 
+/-- `send(x)` (x not None) is `next()` unless the generator has not started -/
+theorem sendVal_eq (s : St) : sendVal s = if s.fresh then (s, .raised .typeError) else next s := by
+  unfold sendVal St.fresh
+  cases hb : s.blocked with
+  | true => simp [next_blocked s hb]
+  | false =>
+    cases hs : s.stopped with
+    | true => simp [next, send, hb, hs]
+    | false =>
+      cases hp : (s.pulled == 0) <;> simp
+
+/-- under `Rel` the reference knows whether the underlying generator has started -/
+theorem fresh_eq (total : Nat) (w : Watch) (s : St) (h : Rel total w s) : w.fresh total = s.fresh := by
+  have hb : w.blocked = s.blocked := by
+    unfold Watch.blocked
+    rw [h.known, blocked_eq]
+    exact watch_blocked_eq s.lastTask s.futs h.last
+  unfold Watch.fresh St.fresh
+  rw [hb, h.fin, h.rest]
+  have hp := h.pos
+  cases hq : (s.pulled == 0) with
+  | true =>
+    have : s.pulled = 0 := by simpa using hq
+    have : (s.rest.length == total) = true := by simp; omega
+    simp [this]
+  | false =>
+    have : s.pulled ≠ 0 := by simpa using hq
+    have : (s.rest.length == total) = false := by simp; omega
+    simp [this]
+
+/-- `send(x)` with a non-None `x`: rejected without moving anything on a generator that has not started, `next()` otherwise -/
+theorem rel_send (total : Nat) (w : Watch) (s : St) (h : Rel total w s) :
+    ∃ w', watchStep total w (observe s .send).2 = .ok w' ∧ Rel total w' (observe s .send).1 := by
+  have hf := fresh_eq total w s h
+  cases hfr : s.fresh with
+  | true =>
+    have ho : observe s .send = (s, ⟨.send, .raised .typeError, none, s.pulled, s.stopped, 0⟩) := by
+      simp [observe, sendVal_eq, hfr]
+    rw [ho]
+    refine ⟨w, ?_, h⟩
+    simp [watchStep, hf, hfr, h.rest, h.fin, h.pos, Res.isRefusal]
+  | false =>
+    obtain ⟨w', hw, hr⟩ := rel_next total w s h
+    have ho : observe s .send = ((observeBasic s .next).1, { (observeBasic s .next).2 with op := .send }) := by
+      simp [observe, sendVal_eq, hfr, observeBasic, stepBasic]
+    rw [ho]
+    refine ⟨w', ?_, hr⟩
+    have hsib : (observeBasic s .next).2.sib = none := rfl
+    simp only [watchStep, hf, hfr, hsib, Option.isSome_none]
+    exact hw
+
 /-- every operation keeps the model inside what the observer accepts -/
 theorem rel_step (total : Nat) (w : Watch) (s : St) (op : Op) (h : Rel total w s) :
     ∃ w', watchStep total w (observe s op).2 = .ok w' ∧ Rel total w' (observe s op).1 := by
-  have basic : ∀ op' : Op, (∀ k a, op' ≠ .par k a) →
+  have basic : ∀ op' : Op, (∀ k a, op' ≠ .par k a) → op' ≠ .send →
       (∃ w', watchBasic total w (observeBasic s op').2 = .ok w' ∧ Rel total w' (observeBasic s op').1) →
       ∃ w', watchStep total w (observe s op').2 = .ok w' ∧ Rel total w' (observe s op').1 := by
-    intro op' hne hx
+    intro op' hne hns hx
     cases op' with
     | par k a => exact absurd rfl (hne k a)
+    | send => exact absurd rfl hns
     | next => simpa [watchStep, observe, observeBasic] using hx
     | compute k => simpa [watchStep, observe, observeBasic] using hx
     | take n => simpa [watchStep, observe, observeBasic] using hx
     | list => simpa [watchStep, observe, observeBasic] using hx
   cases op with
-  | next => exact basic _ (by simp) (rel_next total w s h)
-  | compute k => exact basic _ (by simp) (rel_compute total w s k h)
-  | list => exact basic _ (by simp) (rel_list total w s h)
+  | next => exact basic _ (by simp) (by simp) (rel_next total w s h)
+  | compute k => exact basic _ (by simp) (by simp) (rel_compute total w s k h)
+  | list => exact basic _ (by simp) (by simp) (rel_list total w s h)
   | take n =>
     cases n with
-    | zero => exact basic _ (by simp) (rel_take_zero total w s h)
-    | succ m => exact basic _ (by simp) (rel_take total w s m h)
+    | zero => exact basic _ (by simp) (by simp) (rel_take_zero total w s h)
+    | succ m => exact basic _ (by simp) (by simp) (rel_take total w s m h)
   | par k a => exact rel_par total w s k a h
+  | send => exact rel_send total w s h
 
 theorem watchRun_ok (total : Nat) (ops : List Op) : ∀ (w : Watch) (s : St), Rel total w s →
     ∃ w', watchRun total w (run s ops) = .ok w' := by
